@@ -33,6 +33,8 @@ type Violation struct {
 	Stack  []string          `json:"stack,omitempty"`
 }
 
+var debugUnsat map[string]int
+
 type abortRun struct{ why string }   // unwinds the interpreter; path ends
 type unsupported struct{ why string } // unit cannot be encoded
 
@@ -58,6 +60,7 @@ type Explorer struct {
 	forcedPrefix []bool
 	Fallbacks    []string
 	UserChoices  []int
+	facts        *Facts
 	FallbackMs   int
 	FallbackQueries, FallbackSolved int
 	FallbackTime time.Duration
@@ -66,7 +69,7 @@ type Explorer struct {
 }
 
 func NewExplorer(tt *TermTable, s *Solver) *Explorer {
-	return &Explorer{tt: tt, solver: s, model: &Model{vals: map[int32]uint64{}}, vioKeys: map[string]bool{}, Reached: map[string]int{}, AssertSites: map[string]int{}}
+	return &Explorer{tt: tt, solver: s, facts: newFacts(tt), model: &Model{vals: map[int32]uint64{}}, vioKeys: map[string]bool{}, Reached: map[string]int{}, AssertSites: map[string]int{}}
 }
 
 func (e *Explorer) replaying() bool { return e.cp < len(e.trace) }
@@ -74,12 +77,24 @@ func (e *Explorer) replaying() bool { return e.cp < len(e.trace) }
 // branch decides a symbolic condition. prefer is the side explored first when
 // both are feasible.
 func (e *Explorer) branch(cond *Term, prefer bool) bool {
+	return e.branchOpt(cond, prefer, true)
+}
+
+// branchOpt: with useFacts=false a trace record is always produced.
+func (e *Explorer) branchOpt(cond *Term, prefer bool, useFacts bool) bool {
 	if cond.IsConst() {
 		return cond.k != 0
+	}
+	if useFacts {
+		if v, ok := e.facts.decide(cond); ok {
+			e.facts.Hits++
+			return v
+		}
 	}
 	if e.cp < len(e.trace) {
 		r := &e.trace[e.cp]
 		e.cp++
+		e.facts.learn(cond, r.dir)
 		return r.dir
 	}
 	e.Decisions++
@@ -97,11 +112,16 @@ func (e *Explorer) branch(cond *Term, prefer bool) bool {
 		// treat the unknown side as unexplored: the run is inconclusive
 		e.trace = append(e.trace, rec{dir: mv})
 		e.cp++
+		e.facts.learn(cond, mv)
 		return mv
 	}
 	if res == Unsat {
+		if debugUnsat != nil {
+			debugUnsat[cond.str(4)]++
+		}
 		e.trace = append(e.trace, rec{dir: mv})
 		e.cp++
+		e.facts.learn(cond, mv)
 		return mv
 	}
 	r := rec{forked: true}
@@ -115,6 +135,7 @@ func (e *Explorer) branch(cond *Term, prefer bool) bool {
 	e.solver.Assert(r.cond)
 	e.trace = append(e.trace, r)
 	e.cp++
+	e.facts.learn(cond, r.dir)
 	return r.dir
 }
 
@@ -162,9 +183,15 @@ func (e *Explorer) assume(c *Term) bool {
 	if c.IsConst() {
 		return c.k != 0
 	}
+	if v, ok := e.facts.decide(c); ok {
+		return v
+	}
 	if e.cp < len(e.trace) {
 		r := &e.trace[e.cp]
 		e.cp++
+		if r.dir {
+			e.facts.learn(c, true)
+		}
 		return r.dir
 	}
 	e.tt.NewEpoch()
@@ -183,6 +210,7 @@ func (e *Explorer) assume(c *Term) bool {
 	}
 	if ok {
 		e.solver.Assert(c)
+		e.facts.learn(c, true)
 	}
 	e.trace = append(e.trace, rec{dir: ok, assume: true, cond: c})
 	e.cp++
@@ -195,9 +223,15 @@ func (e *Explorer) concretize(t *Term) uint64 {
 		if t.IsConst() {
 			return t.k
 		}
+		if r := e.facts.rangeOf(t); r.lo == r.hi {
+			return r.lo
+		}
 		if e.cp < len(e.trace) {
+			// every iteration owns exactly one record
 			r := &e.trace[e.cp]
 			e.cp++
+			eq := e.tt.Eq(t, e.tt.Const(t.w, r.val))
+			e.facts.learn(eq, r.dir)
 			if r.dir {
 				return r.val
 			}
@@ -208,11 +242,13 @@ func (e *Explorer) concretize(t *Term) uint64 {
 		eq := e.tt.Eq(t, e.tt.Const(t.w, cand))
 		if eq.IsConst() {
 			if eq.IsTrue() {
+				e.trace = append(e.trace, rec{dir: true, val: cand})
+				e.cp++
 				return cand
 			}
 			panic("concretize: model value outside syntactic range")
 		}
-		d := e.branch(eq, true)
+		d := e.branchOpt(eq, true, false)
 		e.trace[len(e.trace)-1].val = cand
 		if d {
 			return cand
@@ -226,6 +262,9 @@ func (e *Explorer) concretize(t *Term) uint64 {
 func (e *Explorer) inputs() map[string]uint64 {
 	m := map[string]uint64{}
 	for _, v := range e.tt.vars {
+		if !e.tt.active[v.id] {
+			continue
+		}
 		if val, ok := e.model.vals[v.id]; ok {
 			m[v.name] = val
 		} else {
@@ -283,6 +322,7 @@ func (e *Explorer) next() bool {
 		}
 		e.trace = e.trace[:i+1]
 		e.cp = 0
+		e.facts.reset()
 		if e.MaxPaths > 0 && e.Paths >= e.MaxPaths {
 			e.Truncated = fmt.Sprintf("path cap %d reached", e.MaxPaths)
 			return false
